@@ -3,7 +3,7 @@
 \* delivered after the drop of the other collection was handled by the same writer
 SPECIFICATION Spec
 CHECK_DEADLOCK FALSE
-INVARIANTS PlanOut
+INVARIANTS PlanOutSib
 CONSTANTS
   MaxT = 6
   MaxOps = 6
